@@ -81,6 +81,7 @@ fn gen_set(dir: &str, shape: &Value, rng: &mut Rng) -> (Vec<String>, Vec<GenMsg>
             }
         }
         let mut per_file: Vec<Vec<(DltMessage, GenMsg)>> = (0..nf).map(|_| Vec::new()).collect();
+        let mut last_ids: [Option<(&str, &str)>; 2] = [None, None];
         for t in 0..n {
             let cand: Vec<usize> = (0..nf).filter(|f| seg[*f].0 <= t && t < seg[*f].1).collect();
             let f = *rng.pick(&cand);
@@ -91,7 +92,8 @@ fn gen_set(dir: &str, shape: &Value, rng: &mut Rng) -> (Vec<String>, Vec<GenMsg>
             let boot_slot = *cuts[ei].iter().filter(|s| **s <= t).last().unwrap();
             let boot_start = rx(boot_slot) - 1_000_000;
             let mut x = (rx(t) - boot_start) / 100_000; // timestamp in 0.1 s
-            if jitter && rng.chance(1, 3) {
+            let jittered = jitter && rng.chance(1, 3);
+            if jittered {
                 let d = rng.range(5, 25).min(x - 1); // a buffered message: its timestamp is up to 2.5 s older
                 x -= d;
             }
@@ -106,6 +108,13 @@ fn gen_set(dir: &str, shape: &Value, rng: &mut Rng) -> (Vec<String>, Vec<GenMsg>
                 pl.push(0);
                 let mut m = mk_msg(0, &ecu, rx(t), ts, pl);
                 let (apid, ctid) = if rng.chance(1, 2) { *rng.pick(&HOT) } else { (*rng.pick(&APIDS), *rng.pick(&CTIDS)) };
+                // a buffered message usually comes from the same application as its predecessor on that ECU: the older
+                // timestamp then shows up within one ECU/APID/CTID (what --debug_verify_lcs looks at)
+                let (apid, ctid) = match (jittered, last_ids[ei]) {
+                    (true, Some(p)) => p,
+                    _ => (apid, ctid),
+                };
+                last_ids[ei] = Some((apid, ctid));
                 m.extended_header = Some(DltExtendedHeader {
                     verb_mstp_mtin: ((rng.range(1, 6) as u8) << 4) | 0x01,
                     noar: 1,
@@ -449,6 +458,7 @@ fn main() {
     let work = a.str("--work", ".");
     let jobs_n = a.num("--jobs", 8) as usize;
     let seed = a.num("--seed", 1);
+    let tests = a.str("--tests", "/repo/tests");
     let chunk = a.num("--chunk", 4000) as usize;
     let plan = read_ndjson(a.get("--plan").expect("--plan"));
     let mut total_cases = 0u64;
@@ -462,6 +472,8 @@ fn main() {
         std::fs::create_dir_all(&dir).unwrap();
         let mut rng = Rng::new(seed.wrapping_mul(1000003) ^ set);
         let (files, gen) = gen_set(&dir, &entry["shape"], &mut rng);
+        std::fs::write(format!("{}/zz-empty.dlt", dir), b"").unwrap();
+        std::fs::write(format!("{}/zz-garbage.dlt", dir), rng.bytes(300).into_iter().map(|b| if b == b'D' { b'E' } else { b }).collect::<Vec<u8>>()).unwrap();
         let mut ref_evs: Vec<Value> = Vec::new();
         let base_case = set * 1_000_000;
         // ---------------- reference runs (identity order of the file arguments, no selection)
@@ -602,8 +614,40 @@ fn main() {
                 args.push(p.clone());
                 ofile = Some(p);
             }
-            for f in perm {
-                args.push(files[*f].clone());
+            match o["extra"].as_str().unwrap_or("none") {
+                "decoders" => {
+                    for (k, v) in [("--nonverbose_path", tests.clone()), ("--someip_path", tests.clone()), ("--rewrite_path", format!("{}/rewrite.cfg", tests)),
+                                   ("--can_path", tests.clone()), ("--muniic_path", format!("{}/muniic", tests))] {
+                        args.push(k.into());
+                        args.push(v);
+                    }
+                }
+                "ft" => {
+                    args.push("--file_transfer=*.zzz".into());
+                    args.push("--file_transfer_apid".into());
+                    args.push("SYS".into());
+                    args.push("--file_transfer_ctid".into());
+                    args.push("FILE".into());
+                }
+                "debug" => {
+                    args.push("--debug_verify_sort".into());
+                    args.push("--debug_verify_lcs".into());
+                }
+                _ => {}
+            }
+            let argsc = o["args"].as_str().unwrap_or("list");
+            if argsc == "glob" {
+                args.push(format!("{}/f*.dlt", dir)); // expands (in name order) to exactly the input files of the set
+            } else {
+                for f in perm {
+                    args.push(files[*f].clone());
+                }
+                match argsc {
+                    "plus_empty" => args.push(format!("{}/zz-empty.dlt", dir)),
+                    "plus_garbage" => args.push(format!("{}/zz-garbage.dlt", dir)),
+                    "plus_missing" => args.push(format!("{}/zz-missing.dlt", dir)),
+                    _ => {}
+                }
             }
             if dup_arg {
                 args.push(files[0].clone()); // the same file named twice: de-duplicated by the tool
@@ -616,7 +660,8 @@ fn main() {
             }
             let ff = &ff_hdr;
             let hdr = json!({"kind":"sel","set":set,"perm":perm,"argv":args,
-                "opts":{"winc":o["winc"],"lcsc":o["lcsc"],"ord":o["ord"].as_str().unwrap_or("asc"),"b":b,"e":e,"lcs":lcs,"eac":eac,"ff":ff,"npad":npad,"fn":o["f"]["n"].as_u64().unwrap_or(0),"fat":o["f"]["at"].as_str().unwrap_or("end"),"feol":o["f"]["eol"].as_str().unwrap_or("lf"),"ffmt":ffmt,"sort":sort,"style":style,"ofile":o["ofile"]}});
+                "opts":{"winc":o["winc"],"lcsc":o["lcsc"],"ord":o["ord"].as_str().unwrap_or("asc"),"b":b,"e":e,"lcs":lcs,"eac":eac,"ff":ff,"npad":npad,"fn":o["f"]["n"].as_u64().unwrap_or(0),"fat":o["f"]["at"].as_str().unwrap_or("end"),"feol":o["f"]["eol"].as_str().unwrap_or("lf"),"ffmt":ffmt,"sort":sort,"style":style,"ofile":o["ofile"],
+                        "extra":o["extra"].as_str().unwrap_or("none"),"args":argsc}});
             jobs.push(Job { case, hdr, args, ofile, ffile });
         }
         let next = AtomicUsize::new(0);
